@@ -237,6 +237,35 @@ def convolve_with_types(ctx: Ctx, geom, jnp, n):
         if isinstance(pad, list):
             pad = tuple(tuple(p) for p in pad)
         mk = lambda a, p, flags: geom.GeometricImage(jnp.array(a, dtype=jnp.float32), p, d, tuple(flags))
+        if it % 4 == 1:
+            # a half-integer float image convolved with an INTEGER-dtype filter (a hand-written stencil): the
+            # product of the declared types, computed in floating point, whatever the filter's dtype
+            try:
+                Ah = mk(np.asarray(c["img"][0, 0]) * 0.5, pI, c["torus"])
+                Ci = geom.GeometricImage(jnp.array(c["flt"][0, 0], dtype=jnp.int32), pF, d, tuple(c["torus"]))
+                args = (1, pad, None if c["ld"] is None else tuple(c["ld"]), tuple(c["rd"]))
+                o_int = Ah.convolve_with(Ci, *args)
+                o_flt = Ah.convolve_with(mk(c["flt"][0, 0], pF, c["torus"]), *args)
+                o_obj = Ah.times_group_element(np.asarray(g)).convolve_with(
+                    Ci.times_group_element(np.asarray(g)), 1,
+                    (lambda q: tuple(tuple(x) for x in q) if isinstance(q, list) else q)(transport_case(c, g)["padding"]),
+                    None if transport_case(c, g)["ld"] is None else tuple(transport_case(c, g)["ld"]),
+                    tuple(transport_case(c, g)["rd"]))
+                dbl = lambda o: np.rint(2 * np.asarray(o.data, dtype=np.float64)).astype(np.int64)
+                desc_h = dict(describe(c, g, pI, pF), entry="GeometricImage.convolve_with", image="half-integers",
+                              filter_dtype="int32")
+                ctx.case(("cw-half", it, desc_h), True)
+                ctx.hist("integer_dtype_filter", 1)
+                if o_int.data.shape != o_flt.data.shape or not np.array_equal(dbl(o_int), dbl(o_flt)):
+                    ctx.violation("oracle", "convolve_with: the result depends on the dtype of the filter (integer-dtype "
+                                  "filter, half-integer image)", dict(desc_h, image=jarr(c["img"]), filter=jarr(c["flt"])))
+                elif 0 not in o_int.data.shape:
+                    want_h = refs.act(dbl(o_int), d, o_int.parity, g)
+                    if dbl(o_obj).shape != want_h.shape or not np.array_equal(dbl(o_obj), want_h):
+                        ctx.violation("oracle", "convolve_with: (g.A)*(g.C) != g.(A*C) for an integer-dtype filter and a "
+                                      "half-integer image", dict(desc_h, image=jarr(c["img"]), filter=jarr(c["flt"])))
+            except Exception:
+                pass  # options the implementation rejects are rejected below as well
         try:
             out = mk(c["img"][0, 0], pI, c["torus"]).convolve_with(
                 mk(c["flt"][0, 0], pF, c["torus"]), 1, pad, None if c["ld"] is None else tuple(c["ld"]), tuple(c["rd"]))
